@@ -110,24 +110,32 @@ func (runInfo *runInfoStruct) invokeComparisonOperator(operator *ast.ComparisonO
 		// integers are compared as integers to keep full int64 precision
 		if isIntKind(lhsV) && isIntKind(runInfo.rv) {
 			result = lhsV.Int() < runInfo.rv.Int()
+		} else if isIntegerKind(lhsV) && isIntegerKind(runInfo.rv) {
+			result = compareIntegers(lhsV, runInfo.rv) < 0
 		} else {
 			result = toFloat64(lhsV) < toFloat64(runInfo.rv)
 		}
 	case "<=":
 		if isIntKind(lhsV) && isIntKind(runInfo.rv) {
 			result = lhsV.Int() <= runInfo.rv.Int()
+		} else if isIntegerKind(lhsV) && isIntegerKind(runInfo.rv) {
+			result = compareIntegers(lhsV, runInfo.rv) <= 0
 		} else {
 			result = toFloat64(lhsV) <= toFloat64(runInfo.rv)
 		}
 	case ">":
 		if isIntKind(lhsV) && isIntKind(runInfo.rv) {
 			result = lhsV.Int() > runInfo.rv.Int()
+		} else if isIntegerKind(lhsV) && isIntegerKind(runInfo.rv) {
+			result = compareIntegers(lhsV, runInfo.rv) > 0
 		} else {
 			result = toFloat64(lhsV) > toFloat64(runInfo.rv)
 		}
 	case ">=":
 		if isIntKind(lhsV) && isIntKind(runInfo.rv) {
 			result = lhsV.Int() >= runInfo.rv.Int()
+		} else if isIntegerKind(lhsV) && isIntegerKind(runInfo.rv) {
+			result = compareIntegers(lhsV, runInfo.rv) >= 0
 		} else {
 			result = toFloat64(lhsV) >= toFloat64(runInfo.rv)
 		}
@@ -247,7 +255,7 @@ func (runInfo *runInfoStruct) invokeMultiplyOperator(operator *ast.MultiplyOpera
 
 	switch operator.Operator {
 	case "*":
-		if lhsV.Kind() == reflect.String && (runInfo.rv.Kind() == reflect.Int || runInfo.rv.Kind() == reflect.Int32 || runInfo.rv.Kind() == reflect.Int64) {
+		if lhsV.Kind() == reflect.String && isNum(runInfo.rv) && runInfo.rv.Kind() != reflect.Float32 && runInfo.rv.Kind() != reflect.Float64 {
 			count := toInt64(runInfo.rv)
 			if count < 0 {
 				runInfo.err = newStringError(operator, "negative repeat count")
